@@ -178,6 +178,8 @@ def _selections(e, bad, err=None):
                         nm = n.func.attr if isinstance(n.func, _ast.Attribute) else n.func.id if isinstance(n.func, _ast.Name) else None
                         if nm in names and nm not in rel:
                             rel.append(nm)
+    if bad and not rel:
+        return          # no helper is called from (or is) a function the findings name: inlining cannot change what the rule saw there
     seen = set()
     tail = []
     if not bad:
